@@ -14,6 +14,7 @@ from . import bootstrap
 
 VERIF = os.path.dirname(os.path.dirname(os.path.abspath(__file__)))
 KNOWN_FILE = os.path.join(VERIF, "known_findings.json")
+OUT_DIR = VERIF  # evidence/ and replays/ live here; --out redirects both (used when checking a scratch copy)
 
 
 def derive_seed(master: int, prop: str, k: int) -> int:
@@ -271,7 +272,7 @@ def minimise(mod, spec, signature, budget_s=45.0, max_trials=400):
 
 
 def write_replay(prop, tag, spec, res, minimised, extra=None):
-    d = os.path.join(VERIF, "replays")
+    d = os.path.join(OUT_DIR, "replays")
     os.makedirs(d, exist_ok=True)
     h = hashlib.sha256(json.dumps([res.get("signature"), spec], sort_keys=True).encode()).hexdigest()[:10]
     path = os.path.join(d, f"{prop}-{tag}-{h}.json")
@@ -291,7 +292,7 @@ def write_replay(prop, tag, spec, res, minimised, extra=None):
 
 
 def _clean_replays(prop):
-    d = os.path.join(VERIF, "replays")
+    d = os.path.join(OUT_DIR, "replays")
     if os.path.isdir(d):
         for fn in os.listdir(d):
             if fn.startswith(prop + "-raw-") or fn.startswith(prop + "-min-"):
@@ -406,8 +407,8 @@ def check_property(mod, tier, master_seed, nruns, nworkers, time_budget, level, 
         "wall_s": round(wall, 2),
         "violations": n_new,
     }
-    os.makedirs(os.path.join(VERIF, "evidence"), exist_ok=True)
-    with open(os.path.join(VERIF, "evidence", f"{prop}.json"), "w") as f:
+    os.makedirs(os.path.join(OUT_DIR, "evidence"), exist_ok=True)
+    with open(os.path.join(OUT_DIR, "evidence", f"{prop}.json"), "w") as f:
         json.dump(ev, f, indent=1)
     for ln in lines:
         print(ln)
